@@ -50,8 +50,12 @@ def build(cfg, seed):
     props = [maker(cfg['family'])(cfg['T'], cfg['k'], cfg['start'])]
     model = GaussModel(['a', 'b'], sigma=cfg['sigma'], mu=0.5, lo=-30., hi=30., blobs=cfg['blobs'], log=False)
     if cfg['pt']:
+        ann = None
+        if cfg.get('annealer'):
+            from epsie.chain.ptchain import DynamicalAnnealer
+            ann = DynamicalAnnealer(tau=20, nu=2, Tmax_prior=True)
         s = ParallelTemperedSampler(['a', 'b'], model, cfg['nchains'], betas=numpy.array(cfg['betas']),
-                                    swap_interval=cfg['si'], proposals=props, seed=seed)
+                                    swap_interval=cfg['si'], proposals=props, adaptive_annealer=ann, seed=seed)
         shape = (len(cfg['betas']), cfg['nchains'])
     else:
         s = MetropolisHastingsSampler(['a', 'b'], model, cfg['nchains'], proposals=props, seed=seed)
@@ -79,7 +83,7 @@ def gen_cfg(rng, thorough):
     return dict(family=rng.choice(NAMES), T=rng.choice([5, 12, 40]), k=rng.choice([1, 1, 2]), start=rng.choice([1, 1, 3]),
                 sigma=rng.choice([0.5, 2.0]), blobs=rng.random() < 0.3, pt=pt, nchains=rng.choice([1, 1, 2]) if not pt else 1,
                 betas=[1.0, 0.3, 0.05][:nt] if nt == 3 else [1.0, 0.2][:nt], si=rng.choice([1, 2]),
-                nsamp=rng.choice([2, 3]), seeds=[rng.randrange(1, 10 ** 6) for _ in range(3)])
+                nsamp=rng.choice([2, 3]), seeds=[rng.randrange(1, 10 ** 6) for _ in range(3)], annealer=(pt and nt == 3 and rng.random() < 0.6))
 
 
 def gen_actions(rng, nsamp, thorough):
@@ -114,7 +118,7 @@ def run_case(cfg, acts, out, want_term=True):
     cur = [contents(s.state) for s in S]
     ids = [[live_map(s, cfg['pt']).get(p) for p in lay] for s in S]
     vals = [list(c) for c in cur]
-    states, snaps, frozen = [], [], []
+    states, snaps, frozen, frozen_layout = [], [], [], []
     steps = []
     viol = None
     for ai, act in enumerate(acts):
@@ -135,6 +139,7 @@ def run_case(cfg, acts, out, want_term=True):
             states.append(st)
             snaps.append(pickle.dumps(st))
             frozen.append(contents(st))
+            frozen_layout.append(A.layout(st))
             ops = [('get', s)]
         else:
             _, s, k = act
@@ -147,8 +152,13 @@ def run_case(cfg, acts, out, want_term=True):
         # observation of everything
         obs_s = [contents(s.state) for s in S]
         obs_k = [contents(st) for st in states]
+        for k, (now, then) in enumerate(zip(obs_k, frozen)):
+            if len(now) != len(then) and viol is None:
+                lost = sorted(set(map(repr, frozen_layout[k])) - set(map(repr, A.layout(states[k]))))
+                viol = dict(what='state object %d (read earlier) changed shape after action %d %r: entries lost %s'
+                            % (k, ai, act, lost[:4]), replay=dict(config=cfg, actions=acts[:ai + 1]))
         if any(len(o) != len(lay) for o in obs_s + obs_k):
-            return None, None
+            return None, viol
         steps.append((ops, (obs_s, obs_k, [])))
         out.evaluations += 1
         # direct checks of the property on the real objects
